@@ -64,7 +64,7 @@ type plCase struct {
 }
 
 const c12Rule = "case = protocol pipeline (ipfix | nf9 | nf5 | sflow), 1..16 real worker goroutines, UDP size (mostly 1500), 1..6 exporters, and phases: announce phases (each template key at most once) " +
-	"alternating with data phases of 20..800 datagrams with strongly mixed sizes (tens of octets next to ~1400) and unique (exporter, sequence number), incl. identical template refreshes, unknown-template, truncated, corrupted, reserved-id, garbage and oversize datagrams; " +
+	"alternating with data phases of 20..800 datagrams (in a sixth of the IPFIX / NetFlow v9 cases an announcement storm: 200..800 keys announced back to back and decoded by all workers at once, then data for every key) with strongly mixed sizes (tens of octets next to ~1400) and unique (exporter, sequence number), incl. identical template refreshes, unknown-template, truncated, corrupted, reserved-id, garbage and oversize datagrams; " +
 	"in half of the cases one or two OTHER protocols' pipelines run at the same time on self-contained cross traffic (own workers, pools, queues; their receive buffer size drawn independently), in a third workers are told to quit and are replaced while traffic flows (every 1st..50th datagram); " +
 	"injected exactly as the receive loop does (pooled buffer, copy, send on the real UDP channel), real MQ channels drained concurrently or, in half of the cases, only after the workers are joined (slow consumer: a message that aliases a reused buffer is then overwritten for certain), workers joined per phase; half of the cases run on the -race build of the driver; " +
 	"oracle = per phase the multiset of published payloads equals, byte for byte, the payloads obtained by decoding each datagram on its own in the harness against a replica cache holding the templates of earlier phases " +
@@ -378,6 +378,33 @@ func genPipeline(t *rapid.T, proto string, envs map[string]*wire.GenEnv, maxPhas
 				data = append(data, plDatagram{Exp: key.exp, Data: b, Class: class})
 			}
 			c.Phases = append(c.Phases, withCross(data))
+		}
+		if !forceOverflow && rapid.IntRange(0, 5).Draw(t, "storm") == 0 {
+			// an announcement storm: several hundred (exporter, id) keys announced back to back (exporters coming up after
+			// an outage), decoded by all workers at once, then one data datagram for every key: each announcement counts
+			nk := rapid.SampledFrom([]int{200, 400, 800}).Draw(t, "stormkeys")
+			var ann, data []plDatagram
+			for i := 0; i < nk; i++ {
+				exp := i % ne
+				id := uint16(20000 + i/ne)
+				for usedID[fmt.Sprint(exp, id)] {
+					id += 5000
+				}
+				usedID[fmt.Sprint(exp, id)] = true
+				tp := wire.Template{ID: id, Fields: []wire.Field{{ID: 8, Len: 4, Type: wire.TIPv4}, {ID: 12, Len: 4, Type: wire.TIPv4}}}
+				if i%3 == 1 {
+					tp.Fields = append(tp.Fields, wire.Field{ID: 1, Len: 8, Type: wire.TUint64})
+				}
+				am := wire.Msg{Proto: proto, Seq: nextSeq(), Time: 1700000000, Domain: uint32(exp), Count: 1, Sets: []wire.Set{{Kind: "tpl", Tpls: []wire.Template{tp}}}}
+				ann = append(ann, plDatagram{Exp: exp, Data: am.Bytes(), Class: "announce"})
+				rec := wire.Record{Vals: []wire.Hex{{10, byte(i >> 8), byte(i), 1}, {10, byte(i >> 8), byte(i), 2}}}
+				if i%3 == 1 {
+					rec.Vals = append(rec.Vals, wire.Hex{0, 0, 0, 0, 0, 0, byte(i >> 8), byte(i)})
+				}
+				dm := wire.Msg{Proto: proto, Seq: nextSeq(), Time: 1700000001, Domain: uint32(exp), Count: 1, Sets: []wire.Set{{Kind: "data", Tpl: &tp, Recs: []wire.Record{rec}}}}
+				data = append(data, plDatagram{Exp: exp, Data: dm.Bytes(), Class: "valid"})
+			}
+			c.Phases = append(c.Phases, ann, data)
 		}
 		if forceOverflow || rapid.IntRange(0, 11).Draw(t, "overflow") == 0 {
 			// queue overflow: with a slow consumer more than 1000 publishing datagrams fill the message queue; what
